@@ -1,3 +1,4 @@
+pub mod cairo;
 pub mod choices;
 pub mod corpus;
 pub mod driver;
